@@ -530,7 +530,7 @@ pub struct SwapMutation {
 impl SwapMutation {
     pub fn from_params(num_swap: u32) -> ExecResult<Self> {
         ensure!(
-            num_swap > 2,
+            num_swap >= 2,
             "at least two indices need to be swapped, while {} was provided",
             num_swap
         );
